@@ -180,7 +180,7 @@ def structural(tier, res):
 ORACLES = [
     {'name': 'metamorphic layout rewritings (blank/comment lines, trailing blanks, CRLF, indentation, property order), section-to-rule bijection, '
              'one-line corruptions with line-number check, and the unloadable-file report, on the real loaders', 'script': 'C17.py',
-     'bound': '4 rule blocks + 2 top-level lines, 3 view blocks + 2 globals; 8 layout variants; all property orders; ~60 corruptions (incl. 9 malformed priorities); all block permutations'},
+     'bound': '4 rule blocks + 2 top-level lines, 3 view blocks + 2 globals; 8 layout variants; all property orders; ~80 corruptions (incl. 9 malformed priorities, damaged headers at every position, stray first lines); all block permutations; byte order marks for rules / CSV rules / views files'},
 ]
 TRUSTED_BASE = ['pyvc symbolic executor and the syntactic information-flow clauses in props/C17.py', 'z3 5.1.0 / cvc5 1.0.3',
                 'parse_expression raises ExpressionError exactly for invalid expressions (C03/C07 contract), regex classifiers opaque (A6)',
